@@ -29,8 +29,8 @@ theorem scanPc_wwA {r : Ret} {late : Bool} {p : PC} (h : ScanPc r late p) : p.ww
 theorem scanPc_sl {r : Ret} {late : Bool} {p : PC} (h : ScanPc r late p) : p.sl? = none := by
   cases p <;> simp [ScanPc] at h <;> rfl
 
-theorem scanPc_ok12 {r : Ret} {late : Bool} {p : PC} (h : ScanPc r late p) : p.ok12 := by
-  cases p <;> simp [ScanPc] at h <;> trivial
+theorem scanPc_ok12 {r : Ret} {late : Bool} {p : PC} (_h : ScanPc r late p) : p.ok12 := by
+  trivial
 
 theorem scanPc_mtOld' {r : Ret} {late : Bool} {p : PC} (h : ScanPc r late p) : p.mtOld = none := by
   cases p <;> simp [ScanPc] at h <;> rfl
@@ -52,7 +52,7 @@ theorem ScanStep.tl {s s' : State} {t : Tid} (h : ScanStep s s' t) (hoth : ∀ u
   obtain ⟨r, late, hsrc, hdst⟩ := h.src
   obtain ⟨f1, f2, f3, f4, f5, f6, f7, f8⟩ := usRet_facts hsrc
   have hunl := scanPc_unl hdst
-  refine ⟨hoth, h.data, by rw [h.nv]; exact id, ⟨?_, ?_, ?_, ?_⟩, ⟨?_, ?_, ?_, ?_, ?_⟩, ⟨?_, ?_, ?_, ?_, ?_, ?_, ?_⟩, ⟨?_, ?_, ?_, ?_, ?_⟩⟩
+  refine ⟨hoth, h.data, by rw [h.nv]; exact id, ⟨?_, ?_, ?_, ?_⟩, ⟨?_, ?_, ?_, ?_, ?_⟩, ⟨?_, ?_, ?_, ?_, ?_, ?_, ?_⟩, ⟨?_, ?_, ?_, ?_, ?_⟩, ⟨?_, ?_⟩⟩
   · intro k a b; rw [(h.wr k).1, a] at b; cases b
   · intro k a b; rw [(h.wr k).1, a] at b; cases b
   · intro k; exact Or.inl ⟨(h.wr k).2.1, (h.wr k).2.2⟩
@@ -77,6 +77,8 @@ theorem ScanStep.tl {s s' : State} {t : Tid} (h : ScanStep s s' t) (hoth : ∀ u
   · intro a; rw [f4] at a; cases a
   · intro k a _; left; exact ⟨by rw [scanPc_waitRec hdst, ← f1]; exact a, scanPc_hlRec hdst⟩
   · intro a; rw [f5] at a; cases a
+  · intro old a; rw [scanPc_mtOld' hdst] at a; cases a
+  · intro a; left; rw [h.lw]; exact a
 
 /-! ### the five kinds of scan step -/
 
